@@ -46,7 +46,8 @@ structure OidcDoc where
   idleTimeout : Nat := 0
   deriving Repr, BEq, DecidableEq
 
-/-- oracle: for a URI string, `none` if url.Parse fails, else `some path`; and whether redis.ParseURL accepts it -/
+/-- oracle: for a URI string, `none` if url.Parse fails, else `some path` (the path in its ESCAPED form, as the loader
+    compares it with the logout path since the escaped-path fix; it is root iff the decoded path is root); and whether redis.ParseURL accepts it -/
 structure UrlOracle where
   parse : Str → Option Str
   redisOk : Str → Bool
